@@ -55,6 +55,33 @@ def exchangeEnd : List Step → List Ev
 /-- the steps the `k`-th, `k+1`-th, … inputs of an exchange session play -/
 def playedFrom (p : Prog) (k n : Nat) : List Step := (List.range' k n).map p.stepAt
 
+/-! "an emit and finish in the same step still delivers that batch" — at the level of the calls the state makes.
+A well-formed step makes at most one `emit` and raises nothing; its calls may come in any order. -/
+
+def isEmitOp : COp → Bool | .emit _ => true | _ => false
+def isFinishOp : COp → Bool | .finish => true | _ => false
+def isRaiseOp : COp → Bool | .raise _ => true | _ => false
+
+/-- the batch a step emits (order-blind: the first and only `emit` wherever it stands) -/
+def batchOf : List COp → Option Batch
+  | [] => none
+  | .emit b :: _ => some b
+  | _ :: r => batchOf r
+
+/-- the step calls `finish()` somewhere -/
+def finishes (ops : List COp) : Bool := ops.any isFinishOp
+
+def WellFormedStep (ops : List COp) : Prop := (ops.filter isEmitOp).length ≤ 1 ∧ ops.any isRaiseOp = false
+
+/-- the batches a producer emits up to and including the step in which it finishes, from the calls alone -/
+def emittedOps : List (List COp) → List Batch
+  | [] => []
+  | s :: r =>
+    match batchOf s, finishes s with
+    | some b, false => b :: emittedOps r
+    | some b, true => [b]
+    | none, _ => []
+
 def AllEmit (steps : List Step) : Prop := ∀ s ∈ steps, ∃ b, s.act = .emit b
 
 /-- same field set (order and types apart) -/
